@@ -18,11 +18,11 @@ def run(tier, only=None):
     ev = Evidence('C03', tier); work = Work('C03')
     ev.assumptions += ['cmac_error/cmac_assert macros of Error.hpp replaced by checked hooks (reaching cmac_error is a failed obligation)', 'allocation failure outside the claim (--no-malloc-may-fail)']
     ev.stubs += ['T3: HydroDensitySubGrid constructor -> light initialiser, operator new -> typed static storage (the neighbour table is written by the REAL create_subgrid loop)']
-    ev.outside += ['T4 copies (create_copies / update_original_counters): not built', 'numerical equality of estimators between split and unsplit grids for arbitrary packets (real-number clause)', 'layouts > 3 sub-grids per axis']
+    ev.outside += ['T4: copy levels > 2, layouts beyond those listed, reallocation of the std::vectors while copies are created (storage is preallocated), the OpenMP-parallel folding loop (run sequentially), update_copy_properties', 'numerical equality of estimators between split and unsplit grids for arbitrary packets (real-number clause)', 'layouts > 3 sub-grids per axis']
     try:
         tv_run(work, 'c03_t1.cpp', [('tv_o2i', 1), ('tv_mask', 1), ('tv_compat', 4)], ev)
         import c07
-        hs = [h for h in harnesses() + c07.t3_harnesses(tier) if not only or h.name.startswith(only)]
+        hs = [h for h in harnesses() + c07.t3_harnesses(tier) + c07.t4_harnesses(tier) if not only or h.name.startswith(only)]
         violations, broken = run_engine_a('C03', tier, hs, ev, work)
         hb = [h for h in b_harnesses(tier) if not only or h.name.startswith(only)]
         v2, b2 = run_engine_b('C03', tier, hb, ev, work); violations += v2; broken += b2
